@@ -250,6 +250,7 @@ enum Msg {
     Tick,          // sync_tick
     Truncate(u64), // truncate
     TruncateListFails(u64), // truncate whose `store.list()` fails: the actor logs the error, nothing is deleted
+    Shutdown,               // shutdown() sent as one message of a burst, racing with the writers
 }
 
 impl Msg {
@@ -261,6 +262,7 @@ impl Msg {
             Msg::Tick => "sync_tick",
             Msg::Truncate(_) => "truncate",
             Msg::TruncateListFails(_) => "truncate(list-fails)",
+            Msg::Shutdown => "shutdown(in-burst)",
         }
     }
     fn write(&self) -> Option<&W> {
@@ -407,6 +409,7 @@ fn run_real(wl: &Workload) -> RunResult {
         let crash_next = inc.ending == Ending::Crash;
         let no_yield = wl.no_yield;
         let want_policy = cfg.fsync_policy;
+        store.inner.lock().unwrap().list_plan.clear();
         if inc.spawn_list_fails {
             store.plan_list(true);
         }
@@ -470,6 +473,10 @@ fn run_real(wl: &Workload) -> RunResult {
                             Msg::TruncateListFails(t) => {
                                 st3.plan_list(true);
                                 h.truncate(t);
+                                None
+                            }
+                            Msg::Shutdown => {
+                                h.shutdown().await;
                                 None
                             }
                         }
@@ -561,6 +568,7 @@ fn op_line(wl: &Workload, bases: &[usize], spawn_failed: &[bool]) -> String {
                     Msg::Tick => s.push_str(" t"),
                     Msg::Truncate(t) => s.push_str(&format!(" x {}", t)),
                     Msg::TruncateListFails(_) => s.push_str(" xl"),
+                    Msg::Shutdown => s.push_str(" s"),
                 }
             }
         }
@@ -641,6 +649,7 @@ fn run_workload(wl: &Workload, out: &mut Out, source: &str) {
                 Msg::Tick => "sync_tick".to_string(),
                 Msg::Truncate(t) => format!("truncate({})", t),
                 Msg::TruncateListFails(t) => format!("truncate({}) while store.list() fails", t),
+                Msg::Shutdown => "shutdown() (a message of the burst)".to_string(),
             }).collect::<Vec<_>>()).collect::<Vec<_>>(),
             "ends_with": match inc.ending { Ending::Crash => "machine crash, then restart", Ending::Clean => "clean shutdown, then restart", Ending::End => "end of the history" },
         })).collect::<Vec<_>>(),
@@ -802,6 +811,11 @@ fn gen_inc(rng: &mut Rng, next_id: &mut u64, vlen: usize, vary: bool, cancel: bo
             }
         }
         groups.push(g);
+    }
+    if rng.chance(1, 12) {
+        let gi = rng.below(groups.len() as u64) as usize;
+        let pos = rng.below(groups[gi].len() as u64 + 1) as usize;
+        groups[gi].insert(pos, Msg::Shutdown);
     }
     if groups.iter().flatten().all(|m| m.write().is_none()) {
         *next_id += 1;
